@@ -27,6 +27,40 @@ type taintCtx struct {
 	retTaint map[string]bool
 	allow    map[string]bool
 	nsites   int
+	// seq: which types count as the tracked memory (default: byte sequences, the payload)
+	seq func(types.Type) bool
+	// what: how the tracked memory is called in reports
+	what string
+}
+
+func (t *taintCtx) isSeq(ty types.Type) bool {
+	if t.seq != nil {
+		return t.seq(ty)
+	}
+	return isByteSeq(ty)
+}
+
+func (t *taintCtx) name() string {
+	if t.what != "" {
+		return t.what
+	}
+	return "the response payload"
+}
+
+func (t *taintCtx) structWithSeq(ty types.Type) bool {
+	if t.seq == nil {
+		return isStructWithBytes(ty)
+	}
+	st, ok := ty.Underlying().(*types.Struct)
+	if !ok {
+		return false
+	}
+	for i := 0; i < st.NumFields(); i++ {
+		if t.seq(st.Field(i).Type()) {
+			return true
+		}
+	}
+	return false
 }
 
 type taintJob struct {
@@ -136,14 +170,14 @@ func (t *taintCtx) run(fn *ssa.Function, tparams map[int]bool) bool {
 							mark(x)
 						}
 					}
-					if isT(x.X) && (isByteSeq(x.Type()) || isStructWithBytes(x.Type())) {
+					if isT(x.X) && (t.isSeq(x.Type()) || t.structWithSeq(x.Type())) {
 						mark(x)
 					}
 				case *ssa.Field:
 					if st, ok := x.X.Type().Underlying().(*types.Struct); ok && t.sources[st.Field(x.Field)] {
 						mark(x)
 					}
-					if isT(x.X) && isByteSeq(x.Type()) {
+					if isT(x.X) && t.isSeq(x.Type()) {
 						mark(x)
 					}
 				case *ssa.FieldAddr:
@@ -171,7 +205,7 @@ func (t *taintCtx) run(fn *ssa.Function, tparams map[int]bool) bool {
 						mark(x)
 					}
 				case *ssa.Convert:
-					if isT(x.X) && isByteSeq(x.Type()) {
+					if isT(x.X) && t.isSeq(x.Type()) {
 						mark(x)
 					}
 				case *ssa.MakeInterface:
@@ -179,7 +213,7 @@ func (t *taintCtx) run(fn *ssa.Function, tparams map[int]bool) bool {
 						mark(x)
 					}
 				case *ssa.Extract:
-					if isT(x.Tuple) && isByteSeq(x.Type()) {
+					if isT(x.Tuple) && t.isSeq(x.Type()) {
 						mark(x)
 					}
 				case *ssa.Call:
@@ -197,7 +231,7 @@ func (t *taintCtx) run(fn *ssa.Function, tparams map[int]bool) bool {
 			case *ssa.Store:
 				t.nsites++
 				if isT(x.Addr) {
-					t.add(fn, "R13.1", "store through a pointer derived from the response payload", x.Pos(), "store-through-payload")
+					t.add(fn, "R13.1", "store through a pointer derived from "+t.name(), x.Pos(), "store-through-payload")
 				}
 				t.checkHiddenState(fn, x)
 			case *ssa.Call:
@@ -296,22 +330,22 @@ func (t *taintCtx) sinkCall(fn *ssa.Function, x *ssa.Call, isT func(ssa.Value) b
 		switch b.Name() {
 		case "copy":
 			if isT(cm.Args[0]) {
-				t.add(fn, "R13.1", "copy into a slice derived from the response payload", x.Pos(), "copy-into-payload")
+				t.add(fn, "R13.1", "copy into a slice derived from "+t.name(), x.Pos(), "copy-into-payload")
 			}
 		case "append":
 			if isT(cm.Args[0]) {
-				t.add(fn, "R13.1", "append to a slice derived from the response payload (may write into its spare capacity)", x.Pos(), "append-to-payload")
+				t.add(fn, "R13.1", "append to a slice derived from "+t.name()+" (may write into its spare capacity)", x.Pos(), "append-to-payload")
 			}
 		case "clear":
 			if isT(cm.Args[0]) {
-				t.add(fn, "R13.1", "clear of a slice derived from the response payload", x.Pos(), "clear-payload")
+				t.add(fn, "R13.1", "clear of a slice derived from "+t.name(), x.Pos(), "clear-payload")
 			}
 		}
 		return
 	}
 	anyT := false
 	for _, a := range cm.Args {
-		if isT(a) && (isByteSeq(a.Type()) || isPtrToByte(a.Type())) {
+		if isT(a) && (t.isSeq(a.Type()) || isPtrToByte(a.Type())) {
 			anyT = true
 		}
 	}
@@ -394,7 +428,13 @@ func c13Roots(c *Ctx) []*ssa.Function {
 }
 
 func runC13(c *Ctx, roots []*ssa.Function, sources map[*types.Var]bool) *taintCtx {
-	t := &taintCtx{c: c, sources: sources, seen: map[string]bool{}, funcs: map[*ssa.Function]bool{}, retTaint: map[string]bool{}}
+	return runTaint(c, roots, sources, nil, "")
+}
+
+// runTaint: the derived-pointer analysis for another kind of tracked memory (seq decides which
+// types carry it; what names it in reports).
+func runTaint(c *Ctx, roots []*ssa.Function, sources map[*types.Var]bool, seq func(types.Type) bool, what string) *taintCtx {
+	t := &taintCtx{c: c, sources: sources, seen: map[string]bool{}, funcs: map[*ssa.Function]bool{}, retTaint: map[string]bool{}, seq: seq, what: what}
 	for _, root := range roots {
 		t.run(root, map[int]bool{})
 		// all module functions reachable from the root are also analysed without tainted params
